@@ -255,8 +255,12 @@ func checkSetIsIota(w *World, r *Result) {
 	// the one that records the values in a set
 	var loops []*ast.RangeStmt
 	ast.Inspect(fi.Decl.Body, func(x ast.Node) bool {
-		if rs, ok := x.(*ast.RangeStmt); ok && strings.HasSuffix(es(rs.X), ".Members") {
-			loops = append(loops, rs)
+		if rs, ok := x.(*ast.RangeStmt); ok {
+			// over the members, or over a (sorted) copy of them: any []EnumMember
+			t := info.TypeOf(rs.X)
+			if strings.HasSuffix(es(rs.X), ".Members") || (t != nil && strings.HasSuffix(t.String(), "analysis.EnumMember")) {
+				loops = append(loops, rs)
+			}
 		}
 		return true
 	})
@@ -459,6 +463,48 @@ func checkSetIsIota(w *World, r *Result) {
 	}
 	// (4) per-member validity: `!ok || v < 0 => return` dominates the bookkeeping
 	if seenStore == nil {
+		// another algorithm: the members are sorted and each value is compared with its position. The position must
+		// then count the population the positional consumers enumerate (the exported constants): a range index over
+		// all the members, compared under a test that skips the unexported ones, counts another population
+		for _, l := range loops {
+			key := identOf(l.Key)
+			if key == nil {
+				continue
+			}
+			keyObj := objOf(info, key)
+			ast.Inspect(l.Body, func(x ast.Node) bool {
+				be, ok := x.(*ast.BinaryExpr)
+				if !ok || (be.Op != token.NEQ && be.Op != token.EQL) {
+					return true
+				}
+				usesKeyAsValue := false
+				for _, side := range []ast.Expr{be.X, be.Y} {
+					e := ast.Unparen(side)
+					if conv, isCall := e.(*ast.CallExpr); isCall && len(conv.Args) == 1 {
+						if tv, ok := info.Types[conv.Fun]; ok && tv.IsType() {
+							e = ast.Unparen(conv.Args[0])
+						}
+					}
+					if id := identOf(e); id != nil && objOf(info, id) == keyObj {
+						usesKeyAsValue = true
+					}
+				}
+				if !usesKeyAsValue {
+					return true
+				}
+				filtered := false
+				for _, c := range reachConds(info, fi.Decl, l, be, msub) {
+					if c == "$m.Const.Exported()" {
+						filtered = true
+					}
+				}
+				if filtered {
+					r.bad("AGR-C10b", name, "value compared with the range index: "+es(be), w.Pos(be.Pos()),
+						"the position a value is compared with is the range index over ALL the members, while the comparison is only made for the exported ones: an unexported constant below or between the exported ones shifts the index (Low=0, medium=1, High=2 is flagged iota-like although the exported members, enumerated by position, are Low=0, High=1)")
+				}
+				return true
+			})
+		}
 		Undecided("setIsIota: no bookkeeping map store found in the member loop")
 	}
 	conds := pathConds(fi.Decl, seenStore)
